@@ -31,7 +31,7 @@ def reaper_loaders(ctx):
         return any(isinstance(n, ast.While) for n in walk_shallow(fn.node)) and any(nm in ("os.path.exists", "os.path.isfile") for _, _, nm in all_calls(ctx, fn))
     # the loader reads the file whose name it is given (a helper that reads the *batch* file to size a stand-in is not it)
     for f in cands:
-        if loader is None and any(nm == CROP + ".read_from_disk" and c.args and isinstance(c.args[0], ast.Name) and c.args[0].id in f.params for _, c, nm in all_calls(ctx, f)):
+        if loader is None and not polls(f) and any(nm == CROP + ".read_from_disk" and c.args and isinstance(c.args[0], ast.Name) and c.args[0].id in f.params for _, c, nm in all_calls(ctx, f)):
             loader = f
     for f in cands:
         if any(nm == CROP + ".read_from_disk" for _, _, nm in all_calls(ctx, f)) and loader is None:
@@ -40,7 +40,9 @@ def reaper_loaders(ctx):
         if f is loader or loader is None:
             continue
         calls_loader = any(nm == loader.qualname for _, _, nm in all_calls(ctx, f))
-        if not calls_loader:
+        # ... or does the loader's work itself (the loader's body read through): polls, then reads the file it was given
+        reads_itself = polls(f) and any(nm == CROP + ".read_from_disk" and c.args and isinstance(c.args[0], ast.Name) and c.args[0].id in f.params for _, c, nm in all_calls(ctx, f))
+        if not calls_loader and not reads_itself:
             continue
         helper_poll = False
         for _, c, nm in all_calls(ctx, f):
